@@ -27,7 +27,12 @@ def idof(name):
 
 
 def ev_of(e):
-    return None if e == 0 else 'e%d' % e
+    return None if e == 0 else 'e%d' % (e % 10 if e > 10 else e)
+
+
+def tr_of(src, tgt, e, M):
+    """Event ids above 10 stand for the same event with priority 1: two transitions may differ in priority only."""
+    return Transition(nm(src, M), nm(tgt, M) if tgt else None, event=ev_of(e), priority=1 if e > 10 else 0)
 
 
 def build(c, M):
@@ -51,11 +56,11 @@ def build(c, M):
         if c['memory'][s - 1]:
             st.memory = nm(c['memory'][s - 1], M)
     for t in c['trans']:
-        sc.add_transition(Transition(nm(t['src'], M), nm(t['tgt'], M) if t['tgt'] else None, event=ev_of(t['ev'])))
+        sc.add_transition(tr_of(t['src'], t['tgt'], t['ev'], M))
     return sc
 
 
-def struct_of(sc, M):
+def struct_of(sc, M, prio_in_ev=False):
     names = sorted(idof(x) for x in sc.states)
     kind, parent, children, initial, memory = [''] * M, [-1] * M, [[] for _ in range(M)], [0] * M, [0] * M
     roots = []
@@ -74,14 +79,15 @@ def struct_of(sc, M):
     # roots in the order of the private children list of None (declaration order)
     roots = [idof(x) for x in sc._children[None]]
     trans = [{'src': idof(t.source), 'tgt': idof(t.target) if t.target else 0,
-              'ev': int(t.event[1:]) if t.event else 0} for t in sc.transitions]
+              'ev': (int(t.event[1:]) if t.event else 0)
+                    + (10 if prio_in_ev and t.event and t.priority == 1 else 0)} for t in sc.transitions]
     return {'names': names, 'kind': kind, 'parent': parent, 'children': children, 'roots': roots,
             'initial': initial, 'memory': memory, 'trans': trans}
 
 
 def find_transition(sc, tr, M):
     """A handle on a registered transition equal to tr, else a fresh (unregistered) object."""
-    want = Transition(nm(tr['src'], M), nm(tr['tgt'], M) if tr['tgt'] else None, event=ev_of(tr['ev']))
+    want = tr_of(tr['src'], tr['tgt'], tr['ev'], M)
     for t in sc.transitions:
         if t == want:
             return t
@@ -99,7 +105,7 @@ def apply_op(sc, h, M):
     elif op == 'move_state':
         sc.move_state(nm(a, M), nm(b, M))
     elif op == 'add_transition':
-        sc.add_transition(Transition(nm(a['src'], M), nm(a['tgt'], M) if a['tgt'] else None, event=ev_of(a['ev'])))
+        sc.add_transition(tr_of(a['src'], a['tgt'], a['ev'], M))
     elif op == 'remove_transition':
         sc.remove_transition(find_transition(sc, a, M))
     elif op == 'rotate_transition':
@@ -119,7 +125,7 @@ def apply_op(sc, h, M):
 
 def run_session(c, hist, M):
     sc = build(c, M)
-    init = struct_of(sc, M)
+    init = struct_of(sc, M, True)
     lines = []
     for h in hist:
         res = 'ok'
@@ -144,7 +150,7 @@ def run_session(c, hist, M):
                           'post': lines[-1]['post'] if lines else init, 'valid': False})
             break
         lines.append({'op': h['op'], 'a': h['a'], 'b': h['b'], 'c': h['c'], 'res': res,
-                      'post': struct_of(sc, M), 'valid': valid})
+                      'post': struct_of(sc, M, True), 'valid': valid})
     return init, lines
 
 
@@ -170,11 +176,11 @@ def random_session(rng, M, n, T):
         elif r < 0.6:
             hist.append({'op': 'move_state', 'a': pick(), 'b': pick(), 'c': 0})
         elif r < 0.75:
-            hist.append({'op': 'add_transition', 'a': {'src': pick(), 'tgt': pick([0]), 'ev': rng.choice([0, 1])}, 'b': 0, 'c': 0})
+            hist.append({'op': 'add_transition', 'a': {'src': pick(), 'tgt': pick([0]), 'ev': rng.choice([0, 1, 1, 11])}, 'b': 0, 'c': 0})
         elif r < 0.82:
-            hist.append({'op': 'remove_transition', 'a': {'src': pick(), 'tgt': pick([0]), 'ev': rng.choice([0, 1])}, 'b': 0, 'c': 0})
+            hist.append({'op': 'remove_transition', 'a': {'src': pick(), 'tgt': pick([0]), 'ev': rng.choice([0, 1, 1, 11])}, 'b': 0, 'c': 0})
         else:
-            hist.append({'op': 'rotate_transition', 'a': {'src': pick(), 'tgt': pick([0]), 'ev': rng.choice([0, 1])},
+            hist.append({'op': 'rotate_transition', 'a': {'src': pick(), 'tgt': pick([0]), 'ev': rng.choice([0, 1, 11])},
                          'b': pick([-1]), 'c': pick([-1, 0])})
     return hist
 
@@ -196,6 +202,10 @@ def edit_charts(rng, M, count):
             if k not in seen:
                 seen.add(k)
                 tr.append(t)
+        # sometimes a transition that differs from another one in its priority only (event id + 10)
+        ev1 = [t for t in tr if t['ev'] == 1]
+        if ev1 and rng.random() < 0.5:
+            tr.insert(rng.randrange(len(tr) + 1), dict(ev1[0], ev=11))
         c['trans'] = tr
         out.append(c)
     return out
